@@ -661,6 +661,17 @@ func c17Cases(thorough bool) (out []c17Case) {
 				}
 			}
 		}
+		// fully-qualified names longer than any line the generator would wrap to
+		longPkg := "com.example.platform.infrastructure.services.internal.accounting.reconciliation.settlement.v1alpha1"
+		for _, depr := range []bool{false, true} {
+			for _, kd := range kinds {
+				k := c17Case{Package: longPkg, FileDepr: depr, Services: []c17Service{{Name: "CrossBorderSettlementReconciliationService", Deprecated: depr, Comment: 2,
+					Methods: []c17Method{{Name: "ReconcileOutstandingSettlementInstructionsForCounterparty", ClientStream: kd[0], ServerStream: kd[1], Deprecated: depr, Comment: 1}}}}}
+				id++
+				k.ID = id
+				out = append(out, k)
+			}
+		}
 		for _, pkg := range []string{"a.b.v1", ""} {
 			for _, svcs := range []int{1, 2} {
 				k := c17Case{Package: pkg, Sibling: true}
